@@ -24,6 +24,8 @@
 (*   rebuild  VoronoiIntegrator::build again: the cells of the NEW object   *)
 (*   clone    the same observation "cells" on a clone of the object         *)
 (*   cellrt   every cell: clone -> other type-state -> back -> integrate    *)
+(*   radii    generator location and safety radius of every cell of the     *)
+(*            converted tessellation (independent of the type-state)        *)
 (*   withfaces  the transition                                             *)
 (* Keys: which observations must coincide.                                  *)
 (*   - direct = convert in WithoutFaces (C13: bitwise the same tessellation)*)
@@ -39,7 +41,7 @@ EXTENDS Naturals, Sequences, FiniteSets, TLC
 CONSTANTS Dims3,     \* generator: the set of values of dim3 to explore
           MaxLen     \* length of the generated histories
 
-Observations == {"cells", "cellset", "cellint", "faceint", "facesym", "convert", "direct", "rebuild", "clone", "cellrt"}
+Observations == {"cells", "cellset", "cellint", "faceint", "facesym", "convert", "direct", "rebuild", "clone", "cellrt", "radii"}
 Calls == Observations \cup {"withfaces"}
 States == {"WithoutFaces", "WithFaces"}
 
@@ -53,6 +55,7 @@ CanCall(o, t) == /\ o = "withfaces" => dim3 /\ t = "WithoutFaces"
                  /\ o = "cellrt" => dim3
 KeyOf(o, t) ==
     CASE o = "cellset"                       -> <<"cellset", "any">>
+      [] o = "radii"                         -> <<"radii", "any">>
       [] o = "direct"                        -> <<"convert", "WithoutFaces">>
       [] o = "rebuild"                       -> <<"cells", "WithoutFaces">>
       [] o = "clone"                         -> <<"cells", t>>
